@@ -333,12 +333,19 @@ def c04(chk):
     for c in cases[::2]:
         f = 2.0 ** chk.rng.randint(-6, 6)
         c.h = [x * f for x in c.h]
-    cpp, mod = run_both(cases)
+    # long trajectories (beyond any block size / unrolling width inside the energy loops); the oracle below needs no model
+    nbig = len(cases)
+    for order in (3, 5, 7):
+        for n in ([65, 130] if not chk.thorough() else [63, 64, 65, 127, 128, 129, 200, 257]):
+            cases.append(gen.spline_case(chk.rng, order, chk.rng.choice([1, 2, 3]), n, with_grad=False, short=1.0))
+    cpp = runner.run_harness(harness(), [c.line(i, 'Q') for i, c in enumerate(cases)])[0]
+    mod = runner.run_model_sharded([c.line(i, 'Q') for i, c in enumerate(cases[:nbig])], 16)
     chk.evaluations += len(cases)
     for i, c in enumerate(cases):
         struct_cells(chk, c)
-        a, b = cpp[str(i)], mod[str(i)]
-        compare(chk, c, a, b, ['energy'], tol=1e-9)
+        a = cpp[str(i)]
+        if i < nbig:
+            compare(chk, c, a, mod[str(i)], ['energy'], tol=1e-9)
         # oracle: exact integral of the squared s-th derivative of the *published* coefficients
         s = S_OF[c.order]
         nc = NC[c.order]
